@@ -69,6 +69,10 @@ structure World where
   registry : List (Bytes × Record)     -- `PAIRS`, sorted by key
   rawId : Asset → Bytes                -- environment: raw identifier bytes of every asset
   router : Nat
+  pairCode : Nat := 0                  -- factory `Config.pair_code_id`
+  tokenCode : Nat := 0                 -- factory `Config.token_code_id`
+  envPairCode : Nat := 0               -- environment: the code id under which the pair contract is stored
+  envTokenCode : Nat := 0              -- environment: the code id of cw20-base
 
 /-- default commission rate 0.3% (`DEFAULT_COMMISSION_RATE`) -/
 def defaultCommission : Nat := 3000000000000000
@@ -406,6 +410,8 @@ def facCreatePair (w : World) (sender : Nat) (a0 a1 : Asset) (req : Requirements
     let d1 ← assetDecimals w a1
     let key := pairKey (w.rawId a0) (w.rawId a1)
     if (regLookup key w.registry).isSome then .error .err
+    -- the instantiation sub-messages use the configured code ids: anything but the real pair / cw20 code fails
+    else if w.pairCode ≠ w.envPairCode ∨ w.tokenCode ≠ w.envTokenCode then .error .err
     else
       let c := comm.getD defaultCommission
       let P : PairSt := { a0 := a0, a1 := a1, d0 := d0, d1 := d1, lp := nl, comm := c, req := req, factory := w.facAddr }
@@ -458,33 +464,36 @@ def facAddDecimals (w : World) (sender denom decimals : Nat) : M World :=
       facFanOutMsgs denom w2 msgs
     else pure w1
 
-/-- `execute_update_config` (only the owner field is modelled; code ids are not) -/
-def facUpdateConfig (w : World) (sender : Nat) (newOwner : Option Nat) : M World :=
+/-- `execute_update_config`: each given field replaces the stored one -/
+def facUpdateConfig (w : World) (sender : Nat) (newOwner tokenCode pairCode : Option Nat) : M World :=
   if sender ≠ w.owner then .error .unauthorized
-  else .ok { w with owner := newOwner.getD w.owner }
+  else .ok { w with owner := newOwner.getD w.owner, tokenCode := tokenCode.getD w.tokenCode,
+                    pairCode := pairCode.getD w.pairCode }
 
-/-- `execute_migrate_pair` to the same pair code: owner-gated, the pair must have the factory as admin
-(i.e. have been created by it); the pair's `migrate` only rewrites the version string -/
-def facMigratePair (w : World) (sender p : Nat) : M World :=
+/-- `execute_migrate_pair` (code id defaults to the configured pair code): owner-gated, the pair must have
+the factory as admin (i.e. have been created by it); migration to the pair code only rewrites the version
+string; migration to any other code id is outside the model and treated as failing -/
+def facMigratePair (w : World) (sender p : Nat) (codeId : Option Nat) : M World :=
   if sender ≠ w.owner then .error .unauthorized
+  else if codeId.getD w.pairCode ≠ w.envPairCode then .error .err
   else match w.pair p with
     | some P => if P.factory = w.facAddr then .ok w else .error .err
     | none => .error .err
 
 inductive FacMsg
-  | updateConfig (newOwner : Option Nat)
+  | updateConfig (newOwner tokenCode pairCode : Option Nat)
   | createPair (a0 a1 : Asset) (req : Requirements) (comm : Option Nat) (np nl : Nat)
   | addDecimals (denom decimals : Nat)
-  | migratePair (p : Nat)
+  | migratePair (p : Nat) (codeId : Option Nat)
   deriving Repr, Inhabited
 
 def facExec (w : World) (sender : Nat) (funds : List (Nat × Nat)) (m : FacMsg) : M World := do
   let w0 ← attach w sender w.facAddr funds
   match m with
-  | .updateConfig o => facUpdateConfig w0 sender o
+  | .updateConfig o tc pc => facUpdateConfig w0 sender o tc pc
   | .createPair a0 a1 req comm np nl => facCreatePair w0 sender a0 a1 req comm np nl
   | .addDecimals d k => facAddDecimals w0 sender d k
-  | .migratePair p => facMigratePair w0 sender p
+  | .migratePair p c => facMigratePair w0 sender p c
 
 /-! ### router -/
 
